@@ -180,6 +180,7 @@ def run_impl(sat, cnf, limit):
 
 
 INPUT_MODIFIED = []
+UNSAT_TRACES = []
 
 
 # ------------------------------------------------------------------ independent oracles
@@ -389,6 +390,11 @@ def classify_formula(f):
     return "+".join(tags) if tags else str(f)
 
 
+def has_twin_args(f):
+    """a binary connective applied to two identical arguments: its Tseitin clauses repeat a literal"""
+    return any(is_connective(t) and not t.is_not() and t.arg1 == t.arg for t in subterms_all(f))
+
+
 def subterms_all(t):
     out = [t]
     if is_connective(t):
@@ -556,6 +562,153 @@ def term_of_repr(x):
     if x[0] == "eq":
         return T.Eq(term_of_repr(x[1]), term_of_repr(x[2]))
     return {"and": T.And, "or": T.Or, "imp": T.Implies, "iff": T.Eq}[x[0]](term_of_repr(x[1]), term_of_repr(x[2]))
+
+
+# ------------------------------------------------------------------ replay by logic.resolution (zChaff / proofrec)
+def clause_term(T, cl, var):
+    lits = [var(n) if b else T.Not(var(n)) for n, b in cl]
+    return T.Or(*lits)
+
+
+def clause_of_prop(T, prop):
+    """literal set of the clause a replayed theorem states (`false` = empty clause)"""
+    if prop == T.false:
+        return []
+    out = []
+    for lit in prop.strip_disj():
+        if lit.is_not():
+            out.append((int(lit.arg.name[1:]), False))
+        else:
+            out.append((int(lit.name[1:]), True))
+    return out
+
+
+def entails(premises, concl):
+    vs = sorted({n for cl in premises + [concl] for n, _ in cl})
+    for bits in itertools.product((False, True), repeat=len(vs)):
+        a = dict(zip(vs, bits))
+        if all(any(a[n] == b for n, b in cl) for cl in premises) and not any(a[n] == b for n, b in concl):
+            return False
+    return True
+
+
+def replay_stage(ctx, sat, unsat_cases):
+    """(c) the replay primitive `logic.resolution`, the replay loop on traces of our solver, and
+    `proofrec.solve_cnf` end to end."""
+    from kernel import term as T, theory, report
+    from kernel.type import BoolType
+    from kernel.proofterm import ProofTerm
+    from logic import basic, logic
+    basic.load_theory('sat')
+    rng = ctx.rng("replay")
+    var = lambda n: T.Var("v%d" % n, BoolType)               # noqa
+    # R1: single steps
+    pairs = [([(0, False), (1, True)], [(1, False), (0, True)]), ([(0, False), (1, False)], [(1, True), (0, True)]),
+             ([(0, True), (1, True), (0, True)], [(0, False)]), ([(0, True)], [(0, False)]), ([(0, True), (1, True)], [(2, True), (1, True)])]
+    for _ in range(ctx.scale(150, 1500)):
+        nv = rng.randint(1, 4)
+        mk = lambda: [(rng.randrange(nv), rng.random() < 0.5) for _ in range(rng.randint(1, 4))]  # noqa
+        pairs.append((mk(), mk()))
+    lines, impl = [], []
+    for c, d in pairs:
+        ctx.case(("resolution", c, d), nontrivial=len(c) + len(d) > 2)
+        try:
+            with time_limit(20):
+                r = logic.resolution(ProofTerm.assume(clause_term(T, c, var)), ProofTerm.assume(clause_term(T, d, var)))
+                res = ("clause", clause_of_prop(T, r.prop))
+        except AssertionError:
+            res = ("none",)
+        except Timeout:
+            raise
+        except BaseException as e:  # noqa  (RecursionError is not an Exception subclass problem, but be safe)
+            res = ("raise", type(e).__name__)
+        ctx.count("replay:step:%s" % res[0])
+        if res[0] == "raise":
+            ctx.violation("replay:crash:%s:two-clashing-pairs" % res[1], "logic.resolution raised %s on the clauses %s, %s" % (res[1], c, d), {"clauses": [c, d], "kind": "resolution-step"})
+            continue
+        if res[0] == "clause" and not entails([c, d], res[1]):
+            ctx.violation("replay:unsound-step:%s" % json.dumps([c, d]), "logic.resolution derived %s from %s, %s, which does not follow" % (res[1], c, d), {"clauses": [c, d], "kind": "resolution-step"})
+            continue
+        lines.append(sexp.dumps(["macro-resolve", s_clause(c), s_clause(d)]))
+        impl.append((c, d, res))
+    out = ctx.lean_driver(EXE, lines) if lines else []
+    ndis = 0
+    for (c, d, res), line in zip(impl, out or []):
+        m = ("none",) if line == "none" else ("clause", sorted(set((int(n), b == "T") for n, b in sexp.loads(line))))
+        r = res if res[0] == "none" else ("clause", sorted(set(res[1])))
+        if m != r:
+            ndis += 1
+            if ndis <= 3:
+                ctx.broken("correspondence:c15:resolution-step", "clauses=%s,%s impl=%s model=%s" % (c, d, r, m))
+    # R2: the replay loop on the traces of solve_cnf (as proofrec.solve_cnf and zChaff.solve run it)
+    lines, impl = [], []
+    for cnf, proofs in unsat_cases:
+        base = [list(dict.fromkeys(cl)) for cl in cnf]
+        if any(len(cl) == 0 for cl in base):
+            continue
+        ctx.count("replay:trace")
+        try:
+            with time_limit(60):
+                pts = [ProofTerm.assume(clause_term(T, cl, var)) for cl in base]
+                for _, steps in proofs:
+                    pt = pts[steps[0]]
+                    for st in steps[1:]:
+                        pt = logic.resolution(pt, pts[st])
+                    pts.append(pt)
+                derived = [clause_of_prop(T, pt.prop) for pt in pts[len(base):]]
+                res = ("ok", derived)
+        except Timeout:
+            raise
+        except BaseException as e:  # noqa
+            res = ("raise", type(e).__name__)
+        if res[0] == "raise" or res[1][-1] != []:
+            ctx.violation("replay:trace-not-replayable:%s" % json.dumps(cnf), "replaying the trace of solve_cnf on %s with logic.resolution gives %s" % (cnf, res),
+                          {"cnf": cnf, "kind": "trace-replay", "result": res})
+            continue
+        lines.append(sexp.dumps(["zreplay", s_cnf(base), [p for _, p in proofs]]))
+        impl.append((cnf, derived))
+    out = ctx.lean_driver(EXE, lines) if lines else []
+    for (cnf, derived), line in zip(impl, out or []):
+        n0 = len(cnf)
+        m = None if line == "none" else [sorted(set((int(n), b == "T") for n, b in cl)) for cl in sexp.loads(line)][n0:]
+        if m != [sorted(set(cl)) for cl in derived]:
+            ndis += 1
+            if ndis <= 3:
+                ctx.broken("correspondence:c15:replay", "cnf=%s impl=%s model=%s" % (cnf, derived, m))
+    # R3: proofrec.solve_cnf end to end: encode(~F), solve_cnf, replay, discharge the definitions
+    try:
+        from prover import proofrec
+    except Exception as e:  # noqa
+        ctx.count("replay:proofrec-not-importable")
+        return
+    plain, clash, near, opaque = make_atoms(T)
+    for i in range(ctx.scale(24, 200)):
+        pool = plain if rng.random() < 0.6 else plain[:2] + clash[:3]
+        if rng.random() < 0.6:
+            F = T.Not(gen_unsat_formula(rng, pool, T, 0.1 if rng.random() < 0.3 else 0.0))
+        else:
+            F = gen_formula(rng, rng.randint(1, 2), pool, T)
+        atoms = sorted(atoms_of(F, set()))
+        taut = all(eval_form(F, dict(zip(atoms, bits))) for bits in itertools.product((False, True), repeat=len(atoms)))
+        ctx.case(("proofrec", str(F)), nontrivial=True)
+        rp = {"formula": str(F), "term": repr_term(F), "kind": "proofrec"}
+        try:
+            with time_limit(120):
+                pt = proofrec.solve_cnf(F)
+                rpt = report.ProofReport()
+                th = theory.check_proof(pt.export(), rpt, check_level=1)
+            ok = (pt.prop == F and len(pt.hyps) == 0 and th == pt.th and len(rpt.gaps) == 0)
+            res = "proved" if ok else "bad-theorem"
+        except AssertionError:
+            res = "not-provable"
+        except Timeout:
+            raise
+        except BaseException as e:  # noqa
+            res = "raise:" + type(e).__name__
+        ctx.count("replay:proofrec:%s:%s" % ("tautology" if taut else "non-tautology", res))
+        if (taut and res != "proved") or (not taut and res != "not-provable"):
+            cls = "repeated-literal-clause" if has_twin_args(F) else classify_formula(F)
+            ctx.violation("proofrec:%s:%s" % (res, cls), "proofrec.solve_cnf on the %s %s: %s" % ("tautology" if taut else "non-tautology", F, res), rp)
 
 
 # ------------------------------------------------------------------ Gen.lean (translated encode_* rules)
@@ -811,6 +964,8 @@ def check_cases(ctx, sat, cases, label, limit=5):
             continue
         if res[0] == "unsat":
             ctx.count("unsat-certified-by-lean-checker")
+            if len(UNSAT_TRACES) < 4000:
+                UNSAT_TRACES.append((cnf, res[1]))
         # --- correspondence with the model
         if out is not None:
             m = parse_model(out[idx])
@@ -897,6 +1052,11 @@ def run(ctx):
         ctx.broken("correspondence:c15:driver", "model driver unavailable")
     # 4. tseitin
     tseitin_stage(ctx)
+    # 5. replay of traces by logic.resolution, proofrec.solve_cnf
+    k = ctx.scale(120, 1500)
+    step = max(1, len(UNSAT_TRACES) // k)
+    replay_stage(ctx, sat, UNSAT_TRACES[::step][:k])
+    del UNSAT_TRACES[:]
 
 
 def load_corpus(ctx):
@@ -938,6 +1098,12 @@ MANIFEST = {
     "design_ref": "DESIGN.md 4/C15",
 }
 FINDINGS = [
+    {"status": "fixed", "key": "replay:crash:RecursionError:two-clashing-pairs", "commit": "fixes/C15-4.patch",
+     "what": "logic.resolution(~a | b, ~b | a) recursed forever: the clauses were swapped and searched again when the positive literal "
+             "was in the second clause"},
+    {"status": "fixed", "key": "proofrec:not-provable:repeated-literal-clause", "commit": "fixes/C15-5.patch",
+     "what": "proofrec.solve_cnf failed on tautologies such as (a & a) --> a: logic.resolution removed only one copy of the resolved "
+             "literal, so the replay of solve_cnf's trace on Tseitin clauses with a repeated literal did not end in false"},
     {"status": "fixed", "key": "nontermination:duplicate-literal-in-clause", "commit": "5b840a5",
      "what": "solve_cnf([[('x', False), ('x', False)]]) did not terminate: a clause repeating a literal is never unit"},
     {"status": "fixed", "key": "tseitin:not-equisat:atom-named-like-auxiliary", "commit": "4ab1cad",
